@@ -195,6 +195,9 @@ class Normaliser(object):
                 return Poly.atom("(%s)**(%s)" % (self.poly(e.left).canon(), ex.canon()))
         if isinstance(e, ast.Call) and ast.unparse(e.func) in _IDENTITY_CALLS and e.args:
             return self.poly(e.args[0])  # coercions do not change the value
+        if isinstance(e, ast.Call) and isinstance(e.func, ast.Attribute) and e.func.attr == "astype" and len(e.args) == 1 and \
+                ast.unparse(e.args[0]) in ("float", "np.float64", "numpy.float64", "'float'", "'float64'", "np.double", "'f8'"):
+            return self.poly(e.func.value)  # a cast to float does not change the value
         return Poly.atom(self.opaque(e))
 
     def opaque(self, e):
